@@ -188,7 +188,7 @@ def finalize(prop, tier, seed, level, m, wall_s, extra_inconclusive=()):
 
     replay_paths = []
     if m['violations']:
-        rdir = os.path.join(VERIF, 'evidence', 'replay')
+        rdir = os.path.join(os.environ.get('VERIF_EVIDENCE_DIR') or os.path.join(VERIF, 'evidence'), 'replay')
         os.makedirs(rdir, exist_ok=True)
         for v in m['violations'][:5]:
             body = {'property': prop, 'tier': tier, 'seed': seed, 'shard': v.get('shard', 0),
@@ -220,8 +220,9 @@ def finalize(prop, tier, seed, level, m, wall_s, extra_inconclusive=()):
         'verdict': 'violated' if m['violations'] else ('inconclusive' if inconclusive else 'held'),
         'inconclusive_reasons': inconclusive,
     }
-    os.makedirs(os.path.join(VERIF, 'evidence'), exist_ok=True)
-    with open(os.path.join(VERIF, 'evidence', prop + '.json'), 'w') as f:
+    evdir = os.environ.get('VERIF_EVIDENCE_DIR') or os.path.join(VERIF, 'evidence')
+    os.makedirs(evdir, exist_ok=True)
+    with open(os.path.join(evdir, prop + '.json'), 'w') as f:
         json.dump(ev, f, indent=1, sort_keys=True)
         f.write('\n')
 
